@@ -16,7 +16,7 @@ enum { OP_FRAME = 3, OP_FRAMEDEC = 4, OP_GENFUNC = 5 };
 enum { K_STREAM = 0, K_COMPRESSFRAME = 1, K_COMPRESSFRAME_CDICT = 2 };
 enum { DK_NONE = 0, DK_DICT = 1, DK_CDICT = 2 };
 
-static u64 n_reused_differs, n_dict_derived, n_forged_size, n_headers; static u64 n_calls, n_frames, n_decodes, n_switch, n_flush, n_uncomp, n_volatile, n_dec_ok, n_dec_err, n_dec_incomplete;
+static u64 n_reused_differs, n_dict_derived, n_forged_size, n_headers, n_model_frames; static u64 n_calls, n_frames, n_decodes, n_switch, n_flush, n_uncomp, n_volatile, n_dec_ok, n_dec_err, n_dec_incomplete;
 static u8* g_dictbuf;   /* 70000 bytes, blob 1 */
 static u8 g_ops[1 << 16]; static size_t g_nops;   /* call history of the current streaming session: 'U'/'u' + u32 size, 'F' */
 static void op_rec(int code, size_t n) { if (g_nops + 5 <= sizeof g_ops) { g_ops[g_nops++] = (u8)code; if (code != 'F') { u32 v = (u32)n; memcpy(g_ops + g_nops, &v, 4); g_nops += 4; } } else g_nops = sizeof g_ops + 1; }
@@ -45,6 +45,7 @@ typedef size_t (*call_fn)(void* dst, size_t cap, void* ctx);
 static int g_expect_ok = 1;
 
 /* streaming compression with a random call pattern.  returns 0 on success */
+static int g_no_uncompressed = 0;
 static int make_frame_stream(LZ4F_cctx* cctx, const LZ4F_preferences_t* prefs, const u8* in, size_t n, int dictKind, size_t dictSize, LZ4F_CDict* cdict, vec_t* out, int capMode)
 {
     size_t pos = 0; size_t bs = LZ4F_getBlockSize(prefs->frameInfo.blockSizeID); size_t r; u8* dst; size_t cap; int lastUncompressed = 0;
@@ -71,7 +72,7 @@ static int make_frame_stream(LZ4F_cctx* cctx, const LZ4F_preferences_t* prefs, c
             if (pos >= n) break;
             continue;
         }
-        {   LZ4F_compressOptions_t opt; int volatileSrc = rndp(50); u8* tmp = NULL; const u8* src = in + pos; int uncompressed = (prefs->frameInfo.blockMode == LZ4F_blockIndependent) && act < 30;
+        {   LZ4F_compressOptions_t opt; int volatileSrc = rndp(50); u8* tmp = NULL; const u8* src = in + pos; int uncompressed = (prefs->frameInfo.blockMode == LZ4F_blockIndependent) && act < 30 && !g_no_uncompressed;
             memset(&opt, 0, sizeof opt); opt.stableSrc = !volatileSrc;
             if (volatileSrc) { tmp = xalloc(chunk); memcpy(tmp, src, chunk); src = tmp; n_volatile++; }
             cap = LZ4F_compressBound(chunk, prefs); if (capMode == 1) cap += rndn(9);
@@ -245,6 +246,24 @@ int main(int argc, char** argv)
             gen_data(data, n, kindD);
             kind = !strcmp(mode, "c07") ? (int)rndn(3) : (rndp(80) ? K_STREAM : (int)rndn(3));
             frame_case(cctx, dctx, data, n, kind, thorough);
+        }
+        {   /* frames the END-TO-END model (Model/FrameFast.lean) reproduces byte for byte: a FRESH compression context, a fast level, independent blocks,
+             * no dictionary, compressed updates and flushes only; everything else random (block size id, checksums, content size, dictID, autoFlush,
+             * update sizes).  Record kind 5. */
+            int nm = thorough ? 1500 : 120;
+            for (i = 0; i < nm; i++) {
+                static const int fastLevels[] = {0, 0, 1, -1, -3, -100, 1};
+                size_t n = rndp(50) ? rndn(3000) : rndp(70) ? rndn(140000) : rndn(280000); LZ4F_preferences_t prefs = rand_prefs(n); LZ4F_cctx* fresh = NULL; vec_t out; rec_t r; int rc;
+                memset(&out, 0, sizeof out);
+                prefs.frameInfo.blockMode = LZ4F_blockIndependent; prefs.compressionLevel = fastLevels[rndn(7)]; if (n > 200000 && prefs.frameInfo.blockSizeID > 5) prefs.frameInfo.blockSizeID = LZ4F_max256KB;
+                gen_data(data, n, (int)rndn(D_KINDS));
+                if (LZ4F_isError(LZ4F_createCompressionContext(&fresh, LZ4F_VERSION))) continue;
+                rec_begin(&r, OP_FRAME); rec_int(&r, 5); rec_prefs(&r, &prefs); rec_int(&r, 0); rec_int(&r, DK_NONE); rec_bytes(&r, data, n); rec_bytes(&r, NULL, 0); cur_set(&r);
+                g_no_uncompressed = 1; rc = make_frame_stream(fresh, &prefs, data, n, DK_NONE, 0, NULL, &out, 0); g_no_uncompressed = 0;
+                if (rc) { char why[48]; snprintf(why, sizeof why, "compression_call_failed_%d", rc); c_fail(&r, why); }
+                else { r.n -= 1; rec_bytes(&r, out.p, out.n); rec_bytes(&r, g_ops, g_nops <= sizeof g_ops ? g_nops : 0); n_frames++; n_model_frames++; }
+                cur_clear(); rec_write(&r); free(out.p); LZ4F_freeCompressionContext(fresh);
+            }
         }
         if (!strcmp(mode, "c07")) {
             /* headers alone: what LZ4F_compressBegin writes for a sweep of preferences incl. content sizes around and beyond 2^32 (a frame of that size is not
@@ -530,7 +549,7 @@ int main(int argc, char** argv)
 
     LZ4F_freeCompressionContext(cctx); LZ4F_freeDecompressionContext(dctx);
     harness_done();
-    stat_u("calls", n_calls); stat_u("reused_cctx_bytes_differ_from_fresh", n_reused_differs); stat_u("dictionary_derived_contents", n_dict_derived); stat_u("forged_content_sizes", n_forged_size); stat_u("headers_alone", n_headers); stat_u("frames", n_frames); stat_u("decodes", n_decodes); stat_u("flushes", n_flush); stat_u("uncompressed_updates", n_uncomp); stat_u("volatile_sources", n_volatile);
+    stat_u("calls", n_calls); stat_u("reused_cctx_bytes_differ_from_fresh", n_reused_differs); stat_u("dictionary_derived_contents", n_dict_derived); stat_u("forged_content_sizes", n_forged_size); stat_u("headers_alone", n_headers); stat_u("frames_for_end_to_end_model", n_model_frames); stat_u("frames", n_frames); stat_u("decodes", n_decodes); stat_u("flushes", n_flush); stat_u("uncompressed_updates", n_uncomp); stat_u("volatile_sources", n_volatile);
     stat_u("mode_switches_with_buffered_data", n_switch); stat_u("dec_complete", n_dec_ok); stat_u("dec_error", n_dec_err); stat_u("dec_incomplete", n_dec_incomplete); stat_u("records", g_nrecords);
     stat_u("cfails", (u64)g_cfails);
     free(data); free(g_dictbuf);
